@@ -82,7 +82,13 @@ def _facade():
     dev = RecDevice(spc)
     s = SCSI(dev, 512)
     r = s.read10(7, 1)
-    return len(dev.calls) == 2 and dev.calls[1]["cdb"][0] == 0x28 and len(r.datain) == 512
+    ok = len(dev.calls) == 2 and dev.calls[1]["cdb"][0] == 0x28 and len(r.datain) == 512
+    # ... and over the next device object it is handed: that one is asked (one INQUIRY) and gets the commands
+    # from then on, the first one hears nothing more
+    dev2 = RecDevice(spc)
+    s(dev2)
+    s.read10(9, 1)
+    return ok and len(dev.calls) == 2 and [c["cdb"][0] for c in dev2.calls] == [0x12, 0x28] and s.device is dev2
 
 
 def _sense():
